@@ -218,12 +218,24 @@ func runOne(x *X, fn func(*X), deadline time.Duration) bool {
 			}
 			time.Sleep(200 * time.Microsecond)
 			x.Cancel()
-			select {
-			case <-finished:
-			case <-time.After(1500 * time.Millisecond):
+			// not returning is decided by the goroutine dump, never by the clock alone
+			switch vt.WaitOrStuck(finished, 1500*time.Millisecond, time.Second, 12*time.Second, interesting, x.progress) {
+			case "stuck":
 				x.add(Ev{Ev: "notprompt", Idx: -1, Note: "held " + x.S.Hold})
+			case "slow":
+				x.add(Ev{Ev: "info", Idx: -1, Note: "promptness probe skipped: neither returned nor provably stuck"})
 			}
 			close(x.holdc)
+		}()
+	}
+	if x.S.Barrier && !x.Bare {
+		go func() {
+			if x.barNeed > 0 {
+				v := vt.WaitOrStuck(x.barFull, 1500*time.Millisecond, time.Second, 12*time.Second, interesting,
+					func() int64 { return x.progress() + int64(atomic.LoadInt32(&x.maxBar)) })
+				x.barVerdict.Store(v)
+			}
+			close(x.barRelease)
 		}()
 	}
 	select {
@@ -231,19 +243,7 @@ func runOne(x *X, fn func(*X), deadline time.Duration) bool {
 		return false
 	case <-time.After(deadline):
 	}
-	stuck, gs := vt.ConfirmStuckP(func() []vt.Goroutine {
-		var out []vt.Goroutine
-		self := vt.GoID()
-		for _, g := range vt.Dump() {
-			if g.ID == self {
-				continue // the watchdog itself
-			}
-			if strings.Contains(g.Text, "go.uber.org/cff/scheduler.") || strings.Contains(g.Text, "h.runOne.func1") {
-				out = append(out, g)
-			}
-		}
-		return out
-	}, 2*time.Second, func() int64 { x.mu.Lock(); defer x.mu.Unlock(); return x.n })
+	stuck, gs := vt.ConfirmStuckP(interesting, 2*time.Second, x.progress)
 	select {
 	case <-finished:
 		return false
@@ -261,6 +261,23 @@ func runOne(x *X, fn func(*X), deadline time.Duration) bool {
 		return true
 	}
 }
+
+// interesting lists the goroutines the watchdog and the probes look at, without the caller.
+func interesting() []vt.Goroutine {
+	var out []vt.Goroutine
+	self := vt.GoID()
+	for _, g := range vt.Dump() {
+		if g.ID == self {
+			continue
+		}
+		if strings.Contains(g.Text, "go.uber.org/cff/scheduler.") || strings.Contains(g.Text, "h.runOne.func1") {
+			out = append(out, g)
+		}
+	}
+	return out
+}
+
+func (x *X) progress() int64 { x.mu.Lock(); defer x.mu.Unlock(); return x.n }
 
 func summarise(gs []vt.Goroutine) string {
 	var sb strings.Builder
